@@ -327,7 +327,10 @@ def generate(seed, tier):
         ops.append(op)
         if rf.random() < 0.35:
             ops.append(dict(op, probe_fault=rf.randint(1, min(nprobes + 1, 12))))
-            if rf.random() < 0.3:
+            x_ = rf.random()
+            if x_ < 0.2:
+                ops[-1]['probe_fault_kind'] = 'value'     # ... or ValueError (the usual way to reject an argument)
+            elif x_ < 0.45:
                 ops[-1]['probe_fault_kind'] = 'stop'      # the host function raises StopIteration (an iterator behind it ran dry)
     world = {'prelude': prelude, 'names': {'L': [{'d': '1'}, {'d': '2'}, {'d': '3'}, 4], 'M': [10, 20], 'cnt': {'d': '5'}, 'J': ['a'], 'E': []}, 'host_fns': ['t']}
     return {'world': world, 'ops': ops, 'kinds': sorted(sh.kinds), 'n_probes': sh.n}
